@@ -208,6 +208,9 @@ ChunkFlags(m, t, res) ==
      \cup (IF res.endnone /\ k # a THEN {"ChunkLen"} ELSE {})
      \* the caller discarded the rest through count() / nth / last: as many items as announced were left
      \cup (IF "rest" \in DOMAIN res /\ res.rest # -1 /\ res.rest # a - k THEN {"ChunkLen"} ELSE {})
+     \* ... and if it took them out with fold, they are the announced positions after those taken one by one
+     \cup (IF "restvals" \in DOMAIN res /\ \E j \in 1..Len(res.restvals) : PosOf(m, res.restvals[j]) # b + k + (j - 1)
+             THEN {"Index"} ELSE {})
      \cup (IF \E j \in 1..k : PosOf(m, res.vals[j]) # b + (j - 1) THEN {"Index"} ELSE {})
      \cup (IF \E j \in 1..k : PosOf(m, res.vals[j]) < 0 THEN {"Value"} ELSE {})
      \cup (IF \E j \in 1..k : res.pidx[j] # -1 /\ res.pidx[j] # b + (j - 1) THEN {"RefIdentity"} ELSE {})
